@@ -2,12 +2,14 @@ package harness
 
 import (
 	"fmt"
+	"net"
 	"sync"
 	"testing"
 	"testing/synctest"
 	"time"
 
 	"github.com/lightninglabs/lightning-node-connect/gbn"
+	"github.com/lightninglabs/lightning-node-connect/mailbox"
 )
 
 type closeCase struct {
@@ -318,6 +320,111 @@ func TestC12(t *testing.T) {
 						r.Samples = append(r.Samples, map[string]interface{}{"case": c, "close_took": res.MaxCloseTook.String(), "peer_failed_after": res.PeerFailed.String()})
 					}
 					mu.Unlock()
+				}
+			})
+		}
+	})
+	// the mailbox connections (ClientConn / ServerConn around a GoBackNConn) closed while the relay
+	// is unreachable, working, or has forgotten the mailboxes; wall clock (the mailbox layer waits on
+	// mutexes, see DESIGN.md)
+	type mbCase struct {
+		Relay  string        // working | outage | boxes-deleted
+		After  time.Duration // how long the relay condition lasts before Close
+		First  string        // which side calls Close first
+		Repeat int
+	}
+	var mbs []mbCase
+	for _, rel := range []string{"working", "outage", "boxes-deleted"} {
+		for _, after := range []time.Duration{0, 300 * time.Millisecond, 2500 * time.Millisecond} {
+			if !thorough() && after == 300*time.Millisecond && rel != "outage" {
+				continue
+			}
+			for _, first := range []string{"client", "server"} {
+				mbs = append(mbs, mbCase{rel, after, first, 1 + len(mbs)%2})
+			}
+		}
+	}
+	idx = 0
+	t.Run("mailbox-close", func(t *testing.T) {
+		for w := 0; w < 16; w++ {
+			t.Run(fmt.Sprint(w), func(t *testing.T) {
+				t.Parallel()
+				for {
+					mu.Lock()
+					i := idx
+					idx++
+					mu.Unlock()
+					if i >= len(mbs) {
+						return
+					}
+					c := mbs[i]
+					relay := NewFakeRelay()
+					st, err := NewStack(relay, 300+i)
+					if err != nil {
+						mu.Lock()
+						r.Violate("C12/setup", err.Error(), c)
+						mu.Unlock()
+						continue
+					}
+					srv, cli := st.Connect()
+					if srv.Err != nil || cli.Err != nil {
+						mu.Lock()
+						r.Violate("C12/setup", fmt.Sprintf("no connection: %v %v", srv.Err, cli.Err), c)
+						mu.Unlock()
+						st.Shutdown()
+						continue
+					}
+					switch c.Relay {
+					case "outage":
+						relay.SetDown(true)
+					case "boxes-deleted":
+						sid, _ := st.SrvData.SID()
+						a, b := mailbox.GetSID(sid, true), mailbox.GetSID(sid, false)
+						relay.DeleteBox(sidKey(a[:]))
+						relay.DeleteBox(sidKey(b[:]))
+					}
+					time.Sleep(c.After)
+					order := []net.Conn{cli.Mailbox, srv.Mailbox}
+					if c.First == "server" {
+						order = []net.Conn{srv.Mailbox, cli.Mailbox}
+					}
+					var worst time.Duration
+					hung := ""
+					for k, m := range order {
+						for rep := 0; rep < c.Repeat && hung == ""; rep++ {
+							done := make(chan struct{})
+							t0 := time.Now()
+							go func() { m.Close(); close(done) }()
+							select {
+							case <-done:
+								if d := time.Since(t0); d > worst {
+									worst = d
+								}
+							case <-time.After(20 * time.Second):
+								hung = fmt.Sprintf("Close of the %s side's mailbox connection (call %d, relay %s for %v) had not returned after 20 s",
+									map[bool]string{true: c.First, false: "other"}[k == 0], rep+1, c.Relay, c.After)
+							}
+						}
+					}
+					relay.SetDown(false)
+					mu.Lock()
+					r.Case(fmt.Sprintf("mailbox:%+v", c), true, "mailbox/"+c.Relay)
+					switch {
+					case hung != "":
+						r.Violate("C12/mailbox-close-does-not-return", hung, c)
+					case worst > 8*time.Second:
+						r.Violate("C12/close-slow", fmt.Sprintf("a mailbox connection's Close took %v with the relay %s", worst, c.Relay), c)
+					default:
+						for _, m := range order {
+							if !isDone(m) {
+								r.Violate("C12/closed-connection-not-done", "Close returned but Done() is not signalled", c)
+							}
+						}
+					}
+					mu.Unlock()
+					if hung == "" {
+						st.Shutdown()
+					}
 				}
 			})
 		}
